@@ -166,4 +166,464 @@ Proof.
         rewrite E in H. rewrite E. change (d :: r' ++ x)%list with ((d :: r') ++ x)%list. apply IH. exact H.
   - apply IH. exact H.
 Qed.
+
+Definition ext_step (r : step) : step :=
+  match r with Tok t s => Tok t (ext s x) | Retry s => Retry (ext s x) end.
+
+Definition clean_step (r : step) : Prop :=
+  match r with Tok t _ => t_err t = false /\ t_kind t <> KEOF | Retry _ => True end.
+
+Lemma find_two_char_nl c : find (fun e : Z * string * string => fst (fst e) =? NL) (two_char c) = None.
+Proof.
+  destruct (find (fun e : Z * string * string => fst (fst e) =? NL) (two_char c)) as [e|] eqn:E; [|reflexivity].
+  apply find_some in E as [Hin Hd]. apply Z.eqb_eq in Hd. exfalso. exact (two_char_not_nl c e Hin Hd).
+Qed.
+
+Lemma scan_step_ext s0 : clean_step (scan_step L s0) -> scan_step L (ext s0 x) = ext_step (scan_step L s0).
+Proof.
+  unfold scan_step. cbv zeta. cbn [rest line col ext]. rewrite skip_blank_ext.
+  destruct (skip_blank (rest s0) (line s0) (col s0)) as [l ln cl]. cbn [rest line col ext].
+  destruct l as [|c r].
+  { cbn. intros [_ H]. exfalso. apply H. reflexivity. }
+  cbn [app]. change (ext {| rest := c :: r; line := ln; col := cl |} x) with (mkSt (c :: r ++ x) ln cl).
+  assert (Hadv : advance (mkSt (c :: r ++ x) ln cl) = ext (advance (mkSt (c :: r) ln cl)) x) by apply (advance_ext c r ln cl).
+  destruct (is_letter c) eqn:El.
+  { intros _. change (c :: r ++ x)%list with ((c :: r) ++ x)%list. rewrite take_ident_ext.
+    destruct (take_ident L (c :: r) ln cl []) as [lit s']. reflexivity. }
+  destruct (is_digit c) eqn:Ed.
+  { intros _. rewrite scan_number_ext. destruct (scan_number L c r ln (S cl)) as [[lit|] s']; reflexivity. }
+  destruct (advance_line_col c (r ++ x) r ln cl) as [Hl Hc]. rewrite Hl, Hc.
+  destruct ((c =? 34) || (c =? 39)).
+  { destruct (string_body c r (line (advance (mkSt (c :: r) ln cl))) (col (advance (mkSt (c :: r) ln cl))) []) as [[lit|] s'] eqn:E.
+    - intros _. rewrite (string_body_ext c r _ _ _ _ _ E). reflexivity.
+    - cbn. intros [H _]. discriminate. }
+  destruct (c =? 96).
+  { destruct (raw_body c r (line (advance (mkSt (c :: r) ln cl))) (col (advance (mkSt (c :: r) ln cl))) []) as [[lit|] s'] eqn:E.
+    - intros _. rewrite (raw_body_ext c r _ _ _ _ _ E). reflexivity.
+    - cbn. intros [H _]. discriminate. }
+  destruct (c =? 35).
+  { intros _. change (c :: r ++ x)%list with ((c :: r) ++ x)%list. rewrite to_eol_ext. reflexivity. }
+  destruct (c =? 61) eqn:E61.
+  { apply Z.eqb_eq in E61. subst c. intros _.
+    destruct r as [|d r']; [cbn [app] in *; unfold tok1; cbn [ext_step]; rewrite Hadv; reflexivity|].
+    cbn [app] in *.
+    destruct (Z.eq_dec d 61) as [->|Hd61]; [reflexivity|].
+    destruct (Z.eq_dec d 32) as [->|Hd32].
+    - destruct r' as [|d2 r2]; [cbn [app] in *; unfold tok1; cbn [ext_step]; rewrite Hadv; reflexivity|].
+      cbn [app] in *. destruct (Z.eq_dec d2 60) as [->|H60].
+      + destruct r2 as [|d3 r3]; [cbn [app] in *; unfold tok1; cbn [ext_step]; rewrite Hadv; reflexivity|].
+        cbn [app] in *. destruct (Z.eq_dec d3 45) as [->|H45]; [reflexivity|].
+        assert (E : forall (A : Type) (u v : A), match d3 with 45 => u | _ => v end = v).
+        { intros A u v. destruct d3 as [|p|p]; try reflexivity. do 6 (destruct p as [p|p|]; try reflexivity). contradiction H45; reflexivity. }
+        rewrite !E. unfold tok1. cbn [ext_step]. rewrite Hadv. reflexivity.
+      + assert (E : forall (A : Type) (u v : A), match d2 with 60 => u | _ => v end = v).
+        { intros A u v. destruct d2 as [|p|p]; try reflexivity. do 6 (destruct p as [p|p|]; try reflexivity). contradiction H60; reflexivity. }
+        rewrite !E. unfold tok1. cbn [ext_step]. rewrite Hadv. reflexivity.
+    - assert (E : forall (A : Type) (u v w : A), match d with 32 => u | 61 => v | _ => w end = w).
+      { intros A u v w. destruct d as [|p|p]; try reflexivity.
+        do 6 (destruct p as [p|p|]; try reflexivity); try (contradiction Hd61; reflexivity); contradiction Hd32; reflexivity. }
+      rewrite !E. unfold tok1. cbn [ext_step]. rewrite Hadv. reflexivity. }
+  destruct (c =? 47) eqn:E47.
+  { apply Z.eqb_eq in E47. subst c.
+    destruct r as [|d r']; [intros _; cbn [app] in *; unfold tok1; cbn [ext_step]; rewrite Hadv; reflexivity|].
+    cbn [app] in *.
+    destruct (Z.eq_dec d 61) as [->|Hd61]; [intros _; reflexivity|].
+    destruct (Z.eq_dec d 47) as [->|Hd47].
+    { intros _. change (47 :: r' ++ x)%list with ((47 :: r') ++ x)%list. rewrite to_eol_ext. reflexivity. }
+    destruct (Z.eq_dec d 42) as [->|Hd42].
+    { destruct (block_comment r' ln (S (S cl))) as [[|] s'] eqn:E.
+      - intros _. rewrite (block_comment_ext r' _ _ _ E). reflexivity.
+      - cbn. intros [H _]. discriminate. }
+    assert (E : forall (A : Type) (u v w z : A), match d with 42 => u | 47 => v | 61 => w | _ => z end = z).
+    { intros A u v w z. destruct d as [|p|p]; try reflexivity.
+      do 6 (destruct p as [p|p|]; try reflexivity); try (contradiction Hd61; reflexivity); try (contradiction Hd47; reflexivity); contradiction Hd42; reflexivity. }
+    intros _. rewrite !E. unfold tok1. cbn [ext_step]. rewrite Hadv. reflexivity. }
+  destruct (c =? 46) eqn:E46.
+  { apply Z.eqb_eq in E46. subst c.
+    destruct r as [|d r']; [intros _; cbn [app] in *; unfold tok1; cbn [ext_step]; rewrite Hadv; reflexivity|].
+    cbn [app] in *.
+    destruct (Z.eq_dec d 46) as [->|Hd].
+    - destruct r' as [|d2 r2].
+      + cbn. intros [H _]. discriminate.
+      + cbn [app] in *. destruct (Z.eq_dec d2 46) as [->|Hd2]; [intros _; reflexivity|].
+        assert (E : forall (A : Type) (u v : A), match d2 with 46 => u | _ => v end = v).
+        { intros A u v. destruct d2 as [|p|p]; try reflexivity. do 6 (destruct p as [p|p|]; try reflexivity). contradiction Hd2; reflexivity. }
+        rewrite !E. cbn. intros [H _]. discriminate.
+    - assert (E : forall (A : Type) (u v : A), match d with 46 => u | _ => v end = v).
+      { intros A u v. destruct d as [|p|p]; try reflexivity. do 6 (destruct p as [p|p|]; try reflexivity). contradiction Hd; reflexivity. }
+      intros _. rewrite !E. unfold tok1. cbn [ext_step]. rewrite Hadv. reflexivity. }
+  destruct (is_two_char_head c).
+  { intros _. destruct r as [|d r'].
+    - cbn [app] in *. rewrite find_two_char_nl. unfold tok1. cbn [ext_step]. rewrite Hadv. reflexivity.
+    - cbn [app] in *. destruct (find (fun e : Z * string * string => fst (fst e) =? d) (two_char c)) as [e|]; [reflexivity|].
+      unfold tok1. cbn [ext_step]. rewrite Hadv. reflexivity. }
+  intros _. destruct (existsb (Z.eqb c) single_chars); unfold tok1, err1; cbn [ext_step]; rewrite Hadv; reflexivity.
+Qed.
 End Local.
+
+(* ---- position-blind: starting k lines further down only raises the reported line numbers ---- *)
+Definition shift (k : nat) (s : st) : st := mkSt (rest s) (line s + k)%nat (col s).
+Definition shift_tok (k : nat) (t : token) : token := mkTok (t_kind t) (t_lit t) (t_line t + k)%nat (t_col t) (t_err t).
+Definition shift_step (k : nat) (r : step) : step :=
+  match r with Tok t s => Tok (shift_tok k t) (shift k s) | Retry s => Retry (shift k s) end.
+
+Section Shift.
+Variable L : Z -> bool.
+Variable k : nat.
+
+Lemma skip_blank_shift l : forall ln cl, skip_blank l (ln + k)%nat cl = shift k (skip_blank l ln cl).
+Proof. induction l as [|c r IH]; intros ln cl; cbn [skip_blank]; [reflexivity|]. destruct (is_blank c); [apply IH | reflexivity]. Qed.
+
+Lemma to_eol_shift l : forall ln cl, to_eol l (ln + k)%nat cl = shift k (to_eol l ln cl).
+Proof. induction l as [|c r IH]; intros ln cl; cbn [to_eol]; [reflexivity|]. destruct (c =? NL); [reflexivity | apply IH]. Qed.
+
+Lemma take_ident_shift l : forall ln cl acc,
+  take_ident L l (ln + k)%nat cl acc = (fst (take_ident L l ln cl acc), shift k (snd (take_ident L l ln cl acc))).
+Proof.
+  induction l as [|c r IH]; intros ln cl acc; cbn [take_ident]; [reflexivity|].
+  destruct (is_letter L c || is_digit c); [apply IH | reflexivity].
+Qed.
+
+Lemma take_while_shift p l : forall ln cl acc,
+  take_while p l (ln + k)%nat cl acc = (fst (take_while p l ln cl acc), shift k (snd (take_while p l ln cl acc))).
+Proof.
+  induction l as [|c r IH]; intros ln cl acc; cbn [take_while]; [reflexivity|].
+  destruct (p c); [apply IH | reflexivity].
+Qed.
+
+Lemma number_tail_shift l : forall ln cl acc found,
+  number_tail l (ln + k)%nat cl acc found = (fst (number_tail l ln cl acc found), shift k (snd (number_tail l ln cl acc found))).
+Proof.
+  remember (List.length l) as n eqn:Hn. revert l Hn.
+  induction n as [n IHn] using lt_wf_ind. intros l Hn ln cl acc found.
+  destruct l as [|c r]; [reflexivity|].
+  cbn [number_tail].
+  destruct (is_digit c); [apply (IHn (List.length r)); subst; cbn; lia|].
+  destruct (c =? 46); [apply (IHn (List.length r)); subst; cbn; lia|].
+  destruct ((c =? 101) || (c =? 69)); [|reflexivity].
+  destruct found; [reflexivity|].
+  destruct r as [|sgn r']; [reflexivity|].
+  destruct ((sgn =? 43) || (sgn =? 45)).
+  - apply (IHn (List.length r')); subst; cbn; lia.
+  - apply (IHn (List.length (sgn :: r'))); subst; cbn; lia.
+Qed.
+
+Lemma peek_shift s : peek (shift k s) = peek s.
+Proof. reflexivity. Qed.
+
+Lemma scan_number_shift d r ln cl :
+  scan_number L d r (ln + k)%nat cl = (fst (scan_number L d r ln cl), shift k (snd (scan_number L d r ln cl))).
+Proof.
+  unfold scan_number.
+  assert (G : forall (p : option (list Z) * st),
+    match (fst p, shift k (snd p)) with
+    | (Some lit, s) => match peek s with Some c => if is_letter L c then (None, s) else (Some lit, s) | None => (Some lit, s) end
+    | (None, s) => (None, s)
+    end =
+    (fst match p with
+         | (Some lit, s) => match peek s with Some c => if is_letter L c then (None, s) else (Some lit, s) | None => (Some lit, s) end
+         | (None, s) => (None, s)
+         end,
+     shift k (snd match p with
+              | (Some lit, s) => match peek s with Some c => if is_letter L c then (None, s) else (Some lit, s) | None => (Some lit, s) end
+              | (None, s) => (None, s)
+              end))).
+  { intros [[lit|] s]; cbn [fst snd]; [|reflexivity]. rewrite peek_shift.
+    destruct (peek s) as [c|]; [destruct (is_letter L c); reflexivity | reflexivity]. }
+  destruct r as [|y r'].
+  - rewrite number_tail_shift. apply G.
+  - destruct ((d =? 48) && ((y =? 120) || (y =? 88))).
+    + rewrite take_while_shift. destruct (take_while is_hex r' ln (S cl) [d; 120]) as [lit s]. cbn [fst snd]. apply (G (Some lit, s)).
+    + destruct ((d =? 48) && ((y =? 98) || (y =? 66))).
+      * rewrite take_while_shift. destruct (take_while is_binary r' ln (S cl) [d; 98]) as [lit s]. cbn [fst snd]. apply (G (Some lit, s)).
+      * rewrite number_tail_shift. apply G.
+Qed.
+
+Lemma string_body_shift q l : forall ln cl acc,
+  string_body q l (ln + k)%nat cl acc = (fst (string_body q l ln cl acc), shift k (snd (string_body q l ln cl acc))).
+Proof.
+  remember (List.length l) as n eqn:Hn. revert l Hn.
+  induction n as [n IHn] using lt_wf_ind. intros l Hn ln cl acc.
+  destruct l as [|c r]; [reflexivity|].
+  cbn [string_body].
+  destruct (c =? NL); [reflexivity|].
+  destruct (c =? q); [reflexivity|].
+  destruct (c =? 92).
+  - destruct r as [|e r']; [reflexivity|].
+    destruct (e =? NL).
+    + change (S (ln + k))%nat with (S ln + k)%nat. apply (IHn (List.length r')); subst; cbn; lia.
+    + apply (IHn (List.length r')); subst; cbn; lia.
+  - apply (IHn (List.length r)); subst; cbn; lia.
+Qed.
+
+Lemma advance_shift s : advance (shift k s) = shift k (advance s).
+Proof. destruct s as [l ln cl]. unfold advance, shift. cbn [rest line col]. destruct l as [|c r]; [reflexivity|]. destruct (c =? NL); reflexivity. Qed.
+
+Lemma raw_body_shift q l : forall ln cl acc,
+  raw_body q l (ln + k)%nat cl acc = (fst (raw_body q l ln cl acc), shift k (snd (raw_body q l ln cl acc))).
+Proof.
+  induction l as [|c r IH]; intros ln cl acc; [reflexivity|].
+  cbn [raw_body].
+  change (mkSt (c :: r) (ln + k)%nat cl) with (shift k (mkSt (c :: r) ln cl)). rewrite advance_shift.
+  destruct (c =? q); [reflexivity|].
+  cbn [shift line col]. apply IH.
+Qed.
+
+Lemma block_comment_shift l : forall ln cl,
+  block_comment l (ln + k)%nat cl = (fst (block_comment l ln cl), shift k (snd (block_comment l ln cl))).
+Proof.
+  induction l as [|c r IH]; intros ln cl; [reflexivity|].
+  cbn [block_comment].
+  change (mkSt (c :: r) (ln + k)%nat cl) with (shift k (mkSt (c :: r) ln cl)). rewrite advance_shift.
+  cbn [shift line col].
+  destruct (c =? 42); [|apply IH].
+  destruct r as [|d r']; [apply IH|].
+  destruct (Z.eq_dec d 47) as [->|Hd]; [reflexivity|].
+  assert (E : forall (A : Type) (u v : A), match d with 47 => u | _ => v end = v).
+  { intros A u v. destruct d as [|p|p]; try reflexivity. do 6 (destruct p as [p|p|]; try reflexivity). exfalso. apply Hd. reflexivity. }
+  rewrite !E. apply IH.
+Qed.
+
+Lemma scan_step_shift s0 : scan_step L (shift k s0) = shift_step k (scan_step L s0).
+Proof.
+  unfold scan_step. cbv zeta. cbn [rest line col shift]. rewrite skip_blank_shift.
+  destruct (skip_blank (rest s0) (line s0) (col s0)) as [l ln cl]. cbn [rest line col shift].
+  destruct l as [|c r]; [reflexivity|].
+  change (mkSt (c :: r) (ln + k)%nat cl) with (shift k (mkSt (c :: r) ln cl)). rewrite advance_shift.
+  destruct (is_letter L c).
+  { cbn [shift rest line col]. rewrite take_ident_shift. destruct (take_ident L (c :: r) ln cl []) as [lit s']. reflexivity. }
+  destruct (is_digit c).
+  { rewrite scan_number_shift. destruct (scan_number L c r ln (S cl)) as [[lit|] s']; reflexivity. }
+  destruct ((c =? 34) || (c =? 39)).
+  { cbn [shift line col]. rewrite string_body_shift.
+    destruct (string_body c r (line (advance (mkSt (c :: r) ln cl))) (col (advance (mkSt (c :: r) ln cl))) []) as [[lit|] s']; reflexivity. }
+  destruct (c =? 96).
+  { cbn [shift line col]. rewrite raw_body_shift.
+    destruct (raw_body c r (line (advance (mkSt (c :: r) ln cl))) (col (advance (mkSt (c :: r) ln cl))) []) as [[lit|] s']; reflexivity. }
+  destruct (c =? 35).
+  { cbn [shift rest line col]. rewrite to_eol_shift. reflexivity. }
+  destruct (c =? 61).
+  { destruct r as [|d r']; [reflexivity|].
+    destruct (Z.eq_dec d 61) as [->|Hd61]; [reflexivity|].
+    destruct (Z.eq_dec d 32) as [->|Hd32].
+    - destruct r' as [|d2 r2]; [reflexivity|].
+      destruct (Z.eq_dec d2 60) as [->|H60].
+      + destruct r2 as [|d3 r3]; [reflexivity|].
+        destruct (Z.eq_dec d3 45) as [->|H45]; [reflexivity|].
+        assert (E : forall (A : Type) (u v : A), match d3 with 45 => u | _ => v end = v).
+        { intros A u v. destruct d3 as [|p|p]; try reflexivity. do 6 (destruct p as [p|p|]; try reflexivity). contradiction H45; reflexivity. }
+        rewrite !E. reflexivity.
+      + assert (E : forall (A : Type) (u v : A), match d2 with 60 => u | _ => v end = v).
+        { intros A u v. destruct d2 as [|p|p]; try reflexivity. do 6 (destruct p as [p|p|]; try reflexivity). contradiction H60; reflexivity. }
+        rewrite !E. reflexivity.
+    - assert (E : forall (A : Type) (u v w : A), match d with 32 => u | 61 => v | _ => w end = w).
+      { intros A u v w. destruct d as [|p|p]; try reflexivity.
+        do 6 (destruct p as [p|p|]; try reflexivity); try (contradiction Hd61; reflexivity); contradiction Hd32; reflexivity. }
+      rewrite !E. reflexivity. }
+  destruct (c =? 47).
+  { destruct r as [|d r']; [reflexivity|].
+    destruct (Z.eq_dec d 61) as [->|Hd61]; [reflexivity|].
+    destruct (Z.eq_dec d 47) as [->|Hd47].
+    { cbn [shift rest line col]. rewrite to_eol_shift. reflexivity. }
+    destruct (Z.eq_dec d 42) as [->|Hd42].
+    { cbn [shift rest line col]. rewrite block_comment_shift. destruct (block_comment r' ln (S (S cl))) as [[|] s']; reflexivity. }
+    assert (E : forall (A : Type) (u v w z : A), match d with 42 => u | 47 => v | 61 => w | _ => z end = z).
+    { intros A u v w z. destruct d as [|p|p]; try reflexivity.
+      do 6 (destruct p as [p|p|]; try reflexivity); try (contradiction Hd61; reflexivity); try (contradiction Hd47; reflexivity); contradiction Hd42; reflexivity. }
+    rewrite !E. reflexivity. }
+  destruct (c =? 46).
+  { destruct r as [|d r']; [reflexivity|].
+    destruct (Z.eq_dec d 46) as [->|Hd].
+    - destruct r' as [|d2 r2]; [reflexivity|].
+      destruct (Z.eq_dec d2 46) as [->|Hd2]; [reflexivity|].
+      assert (E : forall (A : Type) (u v : A), match d2 with 46 => u | _ => v end = v).
+      { intros A u v. destruct d2 as [|p|p]; try reflexivity. do 6 (destruct p as [p|p|]; try reflexivity). contradiction Hd2; reflexivity. }
+      rewrite !E. reflexivity.
+    - assert (E : forall (A : Type) (u v : A), match d with 46 => u | _ => v end = v).
+      { intros A u v. destruct d as [|p|p]; try reflexivity. do 6 (destruct p as [p|p|]; try reflexivity). contradiction Hd; reflexivity. }
+      rewrite !E. reflexivity. }
+  destruct (is_two_char_head c).
+  { destruct r as [|d r']; [reflexivity|].
+    destruct (find (fun e : Z * string * string => fst (fst e) =? d) (two_char c)) as [e|]; reflexivity. }
+  destruct (existsb (Z.eqb c) single_chars); reflexivity.
+Qed.
+End Shift.
+
+(* ---- Scan and the token stream ---- *)
+Section Stream.
+Variable L : Z -> bool.
+Hypothesis L_nl : L NL = false.
+
+Lemma scan_mono f : forall f' s r, scan L f s = Some r -> (f <= f')%nat -> scan L f' s = Some r.
+Proof.
+  induction f as [|f IH]; intros f' s r H Hle; [discriminate|].
+  destruct f' as [|f']; [lia|]. cbn [scan] in *.
+  destruct (scan_step L s) as [t s'|s']; [exact H|]. apply IH; [exact H | lia].
+Qed.
+
+Lemma scan_all_mono f : forall f' s l, scan_all L f s = Some l -> (f <= f')%nat -> scan_all L f' s = Some l.
+Proof.
+  induction f as [|f IH]; intros f' s l H Hle; [discriminate|].
+  destruct f' as [|f']; [lia|]. cbn [scan_all] in *.
+  destruct (scan L (S (List.length (rest s))) s) as [[t s']|]; [|discriminate].
+  destruct (t_kind t); [exact H| |].
+  - destruct (scan_all L f s') as [l0|] eqn:E; [|discriminate]. rewrite (IH f' s' l0 E) by lia. exact H.
+  - destruct (scan_all L f s') as [l0|] eqn:E; [|discriminate]. rewrite (IH f' s' l0 E) by lia. exact H.
+Qed.
+
+Lemma scan_shift k f : forall s,
+  scan L f (shift k s) = match scan L f s with Some (t, s') => Some (shift_tok k t, shift k s') | None => None end.
+Proof.
+  induction f as [|f IH]; intro s; [reflexivity|].
+  cbn [scan]. rewrite scan_step_shift. destruct (scan_step L s) as [t s'|s']; cbn [shift_step]; [reflexivity | apply IH].
+Qed.
+
+Lemma scan_all_shift k f : forall s,
+  scan_all L f (shift k s) = match scan_all L f s with Some l => Some (map (shift_tok k) l) | None => None end.
+Proof.
+  induction f as [|f IH]; intro s; [reflexivity|].
+  cbn [scan_all]. change (rest (shift k s)) with (rest s). rewrite scan_shift.
+  destruct (scan L (S (List.length (rest s))) s) as [[t s']|]; [|reflexivity].
+  change (t_kind (shift_tok k t)) with (t_kind t).
+  destruct (t_kind t); [reflexivity| |]; rewrite IH; destruct (scan_all L f s'); reflexivity.
+Qed.
+
+Variable b : list Z.
+Notation x := (NL :: b).
+
+(* a clean token of the front part comes out the same with the back part appended *)
+Lemma scan_ext f : forall s t s', scan L f s = Some (t, s') -> t_err t = false -> t_kind t <> KEOF ->
+  scan L f (ext s x) = Some (t, ext s' x).
+Proof.
+  induction f as [|f IH]; intros s t s' H He Hk; [discriminate|].
+  cbn [scan] in *.
+  destruct (scan_step L s) as [t0 s0|s0] eqn:Es.
+  - injection H as -> ->. rewrite (scan_step_ext L L_nl b s) by (rewrite Es; split; assumption). rewrite Es. reflexivity.
+  - rewrite (scan_step_ext L L_nl b s) by (rewrite Es; exact I). rewrite Es. cbn [ext_step]. apply IH; assumption.
+Qed.
+
+(* where the front part ends, the combined text shows the newline: same position as the front's EOF token *)
+Lemma scan_step_eof s t s' : scan_step L s = Tok t s' -> t_kind t = KEOF ->
+  exists ln cl, skip_blank (rest s) (line s) (col s) = mkSt [] ln cl /\ t = mkTok KEOF [] (S ln) (S cl) false.
+Proof.
+  unfold scan_step. cbv zeta.
+  destruct (skip_blank (rest s) (line s) (col s)) as [l ln cl]. cbn [rest line col].
+  destruct l as [|c r].
+  { intros H _. injection H as <- _. exists ln, cl. split; reflexivity. }
+  intros H Hk. exfalso. revert H Hk.
+  destruct (is_letter L c).
+  { destruct (take_ident L (c :: r) ln cl []) as [lit s0]. unfold tok1, ident_kind.
+    destruct (find (fun kw : string * string => zs_eqb (zs (fst kw)) lit) keywords); intro H; injection H as <- _; intro Hk; cbn in Hk; discriminate Hk. }
+  destruct (is_digit c).
+  { destruct (scan_number L c r ln (S cl)) as [[lit|] s0]; intro H; injection H as <- _; intro Hk; cbn in Hk; discriminate Hk. }
+  destruct ((c =? 34) || (c =? 39)).
+  { destruct (string_body c r _ _ []) as [[lit|] s0]; intro H; injection H as <- _; intro Hk; cbn in Hk; discriminate Hk. }
+  destruct (c =? 96).
+  { destruct (raw_body c r _ _ []) as [[lit|] s0]; intro H; injection H as <- _; intro Hk; cbn in Hk; discriminate Hk. }
+  destruct (c =? 35); [intro H; discriminate H|].
+  destruct (c =? 61).
+  { destruct r as [|d r']; [intro H; injection H as <- _; intro Hk; cbn in Hk; discriminate Hk|].
+    destruct d as [|p|p]; try (intro H; injection H as <- _; intro Hk; cbn in Hk; discriminate Hk).
+    do 6 (destruct p as [p|p|]; try (intro H; injection H as <- _; intro Hk; cbn in Hk; discriminate Hk)).
+    destruct r' as [|d2 r2]; try (intro H; injection H as <- _; intro Hk; cbn in Hk; discriminate Hk).
+    destruct d2 as [|p|p]; try (intro H; injection H as <- _; intro Hk; cbn in Hk; discriminate Hk).
+    do 6 (destruct p as [p|p|]; try (intro H; injection H as <- _; intro Hk; cbn in Hk; discriminate Hk)).
+    destruct r2 as [|d3 r3]; try (intro H; injection H as <- _; intro Hk; cbn in Hk; discriminate Hk).
+    destruct d3 as [|p|p]; try (intro H; injection H as <- _; intro Hk; cbn in Hk; discriminate Hk).
+    do 6 (destruct p as [p|p|]; try (intro H; injection H as <- _; intro Hk; cbn in Hk; discriminate Hk)). }
+  destruct (c =? 47).
+  { destruct r as [|d r']; [intro H; injection H as <- _; intro Hk; cbn in Hk; discriminate Hk|].
+    destruct d as [|p|p]; try (intro H; injection H as <- _; intro Hk; cbn in Hk; discriminate Hk).
+    do 6 (destruct p as [p|p|]; try (intro H; injection H as <- _; intro Hk; cbn in Hk; discriminate Hk)); try (intro H; discriminate H).
+    destruct (block_comment r' ln (S (S cl))) as [[|] s0]; [intro H; discriminate H | intro H; injection H as <- _; intro Hk; cbn in Hk; discriminate Hk]. }
+  destruct (c =? 46).
+  { destruct r as [|d r']; [intro H; injection H as <- _; intro Hk; cbn in Hk; discriminate Hk|].
+    destruct d as [|p|p]; try (intro H; injection H as <- _; intro Hk; cbn in Hk; discriminate Hk).
+    do 6 (destruct p as [p|p|]; try (intro H; injection H as <- _; intro Hk; cbn in Hk; discriminate Hk)).
+    destruct r' as [|d2 r2]; try (intro H; injection H as <- _; intro Hk; cbn in Hk; discriminate Hk).
+    destruct d2 as [|p|p]; try (intro H; injection H as <- _; intro Hk; cbn in Hk; discriminate Hk).
+    do 6 (destruct p as [p|p|]; try (intro H; injection H as <- _; intro Hk; cbn in Hk; discriminate Hk)). }
+  destruct (is_two_char_head c).
+  { destruct r as [|d r']; [intro H; injection H as <- _; intro Hk; cbn in Hk; discriminate Hk|].
+    destruct (find (fun e : Z * string * string => fst (fst e) =? d) (two_char c)); intro H; injection H as <- _; intro Hk; cbn in Hk; discriminate Hk. }
+  destruct (existsb (Z.eqb c) single_chars); intro H; injection H as <- _; intro Hk; cbn in Hk; discriminate Hk.
+Qed.
+
+Definition nl_tok (eof : token) : token := mkTok (KChar NL) [NL] (t_line eof) (t_col eof) false.
+
+Lemma scan_eof_ext f : forall s t s', scan L f s = Some (t, s') -> t_kind t = KEOF ->
+  scan L f (ext s x) = Some (nl_tok t, mkSt b (t_line t) 0).
+Proof.
+  induction f as [|f IH]; intros s t s' H Hk; [discriminate|].
+  cbn [scan] in *.
+  destruct (scan_step L s) as [t0 s0|s0] eqn:Es.
+  - injection H as -> ->.
+    pose proof (scan_step_eof _ _ _ Es Hk) as (ln & cl & Hs & Et). subst t.
+    unfold scan_step. cbv zeta. cbn [rest line col ext]. rewrite skip_blank_ext, Hs. cbn [ext rest line col app].
+    rewrite (letter_nl L L_nl). reflexivity.
+  - rewrite (scan_step_ext L L_nl b s) by (rewrite Es; exact I). rewrite Es. cbn [ext_step]. eapply IH; eassumption.
+Qed.
+
+Lemma scan_all_concat f : forall s l, scan_all L f s = Some l -> Forall (fun t => t_err t = false) l ->
+  exists ts eof, l = (ts ++ [eof])%list /\ t_kind eof = KEOF /\
+    forall lb fb, scan_all L fb (mkSt b (t_line eof) 0) = Some lb ->
+      exists f', scan_all L f' (ext s x) = Some (ts ++ nl_tok eof :: lb)%list.
+Proof.
+  induction f as [|f IH]; intros s l H Hall; [discriminate|].
+  cbn [scan_all] in H.
+  destruct (scan L (S (List.length (rest s))) s) as [[t s']|] eqn:Es; [|discriminate].
+  assert (Hfuel : (S (List.length (rest s)) <= S (List.length (rest (ext s x))))%nat).
+  { cbn [ext rest]. rewrite app_length. lia. }
+  assert (Cont : forall l0, scan_all L f s' = Some l0 -> l = t :: l0 -> t_kind t <> KEOF ->
+    exists ts eof, l = (ts ++ [eof])%list /\ t_kind eof = KEOF /\
+      forall lb fb, scan_all L fb (mkSt b (t_line eof) 0) = Some lb ->
+        exists f', scan_all L f' (ext s x) = Some (ts ++ nl_tok eof :: lb)%list).
+  { intros l0 E0 -> Hk. inversion Hall as [|? ? He Hall0]; subst.
+    destruct (IH s' l0 E0 Hall0) as (ts0 & eof & -> & Hke & Hrest).
+    exists (t :: ts0), eof. split; [reflexivity|]. split; [exact Hke|].
+    intros lb fb Hb. destruct (Hrest lb fb Hb) as [f0 Hf0].
+    exists (S f0). cbn [scan_all].
+    rewrite (scan_mono _ _ _ _ (scan_ext _ _ _ _ Es He Hk) Hfuel).
+    destruct (t_kind t); [exfalso; apply Hk; reflexivity| |]; rewrite Hf0; reflexivity. }
+  destruct (t_kind t) eqn:Ek.
+  - injection H as <-. exists [], t. split; [reflexivity|]. split; [exact Ek|].
+    intros lb fb Hb. exists (S fb). cbn [scan_all].
+    rewrite (scan_mono _ _ _ _ (scan_eof_ext _ _ _ _ Es Ek) Hfuel). cbn [t_kind nl_tok]. rewrite Hb. reflexivity.
+  - destruct (scan_all L f s') as [l0|] eqn:E0; [|discriminate]. injection H as <-.
+    apply (Cont l0 eq_refl eq_refl). discriminate.
+  - destruct (scan_all L f s') as [l0|] eqn:E0; [|discriminate]. injection H as <-.
+    apply (Cont l0 eq_refl eq_refl). discriminate.
+Qed.
+End Stream.
+
+(* The scanner half of "parsing is compositional": if A scans without an error token, the token
+   stream of  A, newline, B  is A's stream with its EOF replaced by the newline token (reported where
+   A's EOF was), followed by B's stream with every line number raised by the line A ends on. *)
+Theorem tokens_of_concatenation (L : Z -> bool) : L NL = false -> forall A B la lb,
+  tokens L A = Some la -> Forall (fun t => t_err t = false) la -> tokens L B = Some lb ->
+  exists ts eof, la = (ts ++ [eof])%list /\ t_kind eof = KEOF /\
+    tokens L (A ++ NL :: B) = Some (ts ++ nl_tok eof :: map (shift_tok (t_line eof)) lb)%list.
+Proof.
+  intros L_nl A B la lb Ha Hclean Hb. unfold tokens in Ha, Hb.
+  destruct (scan_all_concat L L_nl B _ _ _ Ha Hclean) as (ts & eof & -> & Hk & Hrest).
+  exists ts, eof. split; [reflexivity|]. split; [exact Hk|].
+  assert (HB : scan_all L (S (S (List.length B))) (mkSt B (t_line eof) 0) = Some (map (shift_tok (t_line eof)) lb)).
+  { change (mkSt B (t_line eof) 0) with (shift (t_line eof) (mkSt B 0 0)). rewrite scan_all_shift, Hb. reflexivity. }
+  destruct (Hrest _ _ HB) as [f' Hf'].
+  change (ext (mkSt A 0 0) (NL :: B)) with (mkSt (A ++ NL :: B) 0 0) in Hf'.
+  destruct (tokens_total L L_nl (A ++ NL :: B)) as (l & Hl & _).
+  rewrite Hl. unfold tokens in Hl.
+  pose proof (scan_all_mono L _ (Nat.max f' (S (S (List.length (A ++ NL :: B))))) _ _ Hf' (Nat.le_max_l _ _)) as H1.
+  pose proof (scan_all_mono L _ (Nat.max f' (S (S (List.length (A ++ NL :: B))))) _ _ Hl (Nat.le_max_r _ _)) as H2.
+  rewrite H1 in H2. exact (eq_sym H2).
+Qed.
+
+(* it is not vacuous: "a = 1" then "b" *)
+Example concat_somewhere :
+  let L := fun c : Z => ((97 <=? c) && (c <=? 122))%Z in
+  match tokens L (zs "a = 1"%string), tokens L (zs "b"%string), tokens L (zs "a = 1"%string ++ NL :: zs "b"%string) with
+  | Some la, Some lb, Some lab => List.length la = 4%nat /\ List.length lb = 2%nat /\ List.length lab = 6%nat
+      /\ Forall (fun t => t_err t = false) la /\ map t_line lab = [1; 1; 1; 1; 2; 2]%nat
+  | _, _, _ => False
+  end.
+Proof. vm_compute. repeat split; repeat constructor. Qed.
